@@ -2,3 +2,5 @@
 import Thanos.Driver.Downsample
 import Thanos.Props.C39
 import Thanos.Props.C36
+import Thanos.Props.C38
+import Thanos.Props.C37
